@@ -253,6 +253,9 @@ impl Kademlia {
                 for action in actions {
                     match self.service.open_substream(peer) {
                         Ok(substream_id) => {
+                            // Track the substream so that a failure to open it can be
+                            // attributed to the peer in `on_substream_open_failure()`.
+                            self.pending_substreams.insert(substream_id, peer);
                             context.add_pending_action(substream_id, action);
                         }
                         Err(error) => {
